@@ -141,7 +141,11 @@ func (x *e2e) reconcileDrift(name string) driftObs {
 func labelsSatisfy(reqs []v1.NodeSelectorRequirementWithMinValues, lbls map[string]string) (bool, []v1.NodeSelectorRequirementWithMinValues) {
 	var bad []v1.NodeSelectorRequirementWithMinValues
 	for _, r := range reqs {
-		v, present := lbls[r.Key]
+		key := r.Key
+		if n, ok := v1.NormalizedLabels[key]; ok { // documented aliases (beta zone / arch / os / instance-type labels)
+			key = n
+		}
+		v, present := lbls[key]
 		if !oracle.Admits(string(r.Operator), r.Values, v, present) {
 			bad = append(bad, r)
 		}
@@ -149,8 +153,8 @@ func labelsSatisfy(reqs []v1.NodeSelectorRequirementWithMinValues, lbls map[stri
 	return len(bad) == 0, bad
 }
 
-// unsatKey returns a key among the violated requirements whose requirement set admits neither absence nor any value
-// of a probe universe that contains a witness whenever one exists (mentioned values, integers at and next to every
+// unsatKey returns a key among the violated requirements whose requirement set admits neither absence nor any valid
+// label value of a probe universe that contains a witness whenever one exists (mentioned values, integers at and next to every
 // bound plus |excluded|+1 consecutive integers above each lower bound, a fresh non-integer string).
 func unsatKey(all, violated []v1.NodeSelectorRequirementWithMinValues) string {
 	for _, b := range violated {
@@ -186,6 +190,10 @@ func unsatKey(all, violated []v1.NodeSelectorRequirementWithMinValues) string {
 			if sat {
 				break
 			}
+			// only values a node can actually carry: "-1" is not a valid label value
+			if len(validation.IsValidLabelValue(v)) > 0 {
+				continue
+			}
 			sat = admits(v, true)
 		}
 		if !sat {
@@ -193,6 +201,16 @@ func unsatKey(all, violated []v1.NodeSelectorRequirementWithMinValues) string {
 		}
 	}
 	return ""
+}
+
+func onKey(reqs []v1.NodeSelectorRequirementWithMinValues, key string) []string {
+	var out []v1.NodeSelectorRequirementWithMinValues
+	for _, q := range reqs {
+		if q.Key == key {
+			out = append(out, q)
+		}
+	}
+	return reqStrings(out)
 }
 
 func copyLabels(m map[string]string) map[string]string {
@@ -217,7 +235,7 @@ func reqStrings(reqs []v1.NodeSelectorRequirementWithMinValues) []string {
 
 func runE2E(r *mon.Report, tier string, idx int, rng *rand.Rand) {
 	opts, optDesc := common.RandomOptions(rng)
-	static := rng.Intn(6) == 0
+	static := rng.Intn(5) == 0
 	if static {
 		t := true
 		opts.FeatureGates.StaticCapacity = &t
@@ -523,6 +541,7 @@ func (x *e2e) processClaim(create func() (string, error), reqDesc string, shape 
 			r.Inc("drift_subreconciler_ran")
 		} else {
 			r.Inc("drift_subreconciler_did_not_run")
+			r.Inconcl("case %d: the drift sub-reconciler did not demonstrably run for launched claim %s", x.idx, name)
 		}
 		x.sig[fmt.Sprintf("fresh@stage%d", stage)] = true
 		selfDrift := false
@@ -602,8 +621,19 @@ func (x *e2e) reportSelfDrift(name string, pre map[string]string, o driftObs, cs
 			key = "self-drift-template-label-contradicts-requirement"
 			what = fmt.Sprintf("the NodePool's own template label %s=%s violates its requirement %s; validation accepted the NodePool and the scheduler created the claim", b.Key, val, reqStrings(bad)[0])
 		case !v1.WellKnownLabels.Has(b.Key) && present && fromKarpenter && complement:
+			// what the scheduler knew about the key = NodePool requirements AND pod requirements = the claim's serialized
+			// requirements on it. If that conjunction admits no value at all, no choice of Any() could have been right:
+			// the claim should never have been created (own key); otherwise Any() picked an excluded value although an
+			// admitted one exists.
+			joint := append(append([]v1.NodeSelectorRequirementWithMinValues{}, np.Spec.Template.Spec.Requirements...), nc.Spec.Requirements...)
+			if unsatKey(joint, []v1.NodeSelectorRequirementWithMinValues{b}) != "" {
+				key = "self-drift-custom-label-range-fully-excluded"
+				what = fmt.Sprintf("the requirements on %s (NodePool: %v; claim: %v) admit no value at all, yet the scheduler created a claim and Requirement.Any() labelled it %s=%s, which the NodePool requirement %s excludes", b.Key,
+					onKey(np.Spec.Template.Spec.Requirements, b.Key), onKey(nc.Spec.Requirements, b.Key), b.Key, val, reqStrings(bad)[0])
+				break
+			}
 			key = "self-drift-custom-label-any-excluded"
-			what = fmt.Sprintf("Karpenter itself chose %s=%s for the claim (NodeClaimTemplate.resolveCustomLabelsFromRequirements -> Requirement.Any), a value the NodePool requirement %s excludes", b.Key, val, reqStrings(bad)[0])
+			what = fmt.Sprintf("Karpenter itself chose %s=%s for the claim (NodeClaimTemplate.resolveCustomLabelsFromRequirements -> Requirement.Any), a value the NodePool requirement %s excludes although an admitted value exists", b.Key, val, reqStrings(bad)[0])
 		case !v1.WellKnownLabels.Has(b.Key) && present && fromKarpenter:
 			key = "self-drift-custom-label-outside-in-set"
 			what = fmt.Sprintf("Karpenter chose %s=%s which the NodePool requirement %s does not admit", b.Key, val, reqStrings(bad)[0])
